@@ -408,7 +408,10 @@ func (in *instr) rewriteGo(c *astutil.Cursor, v *ast.GoStmt) {
 		tok := ast.NewIdent(fmt.Sprintf("verifTok%d", in.ctr))
 		c.InsertBefore(&ast.AssignStmt{Lhs: []ast.Expr{tok}, Tok: token.DEFINE,
 			Rhs: []ast.Expr{simCall("BeforeGo")}})
-		fl.Body.List = append([]ast.Stmt{simStmt("GoStart", tok, in.site(v, "/go"))}, fl.Body.List...)
+		fl.Body.List = append([]ast.Stmt{
+			&ast.DeferStmt{Call: simCall("GoRecover", in.site(v, "/go"))},
+			simStmt("GoStart", tok, in.site(v, "/go")),
+		}, fl.Body.List...)
 		stats["go.literal"]++
 		return
 	}
@@ -449,6 +452,7 @@ func (in *instr) rewriteGo(c *astutil.Cursor, v *ast.GoStmt) {
 		callArgs = append(callArgs, av)
 	}
 	body := &ast.BlockStmt{List: []ast.Stmt{
+		&ast.DeferStmt{Call: simCall("GoRecover", in.site(v, "/go"))},
 		simStmt("GoStart", tok, in.site(v, "/go")),
 		&ast.ExprStmt{X: &ast.CallExpr{Fun: fv, Args: callArgs}},
 	}}
